@@ -122,6 +122,8 @@ class Unit:
 
 
 def _worker(args):
+    import logging
+    logging.disable(logging.CRITICAL)
     modname, unit_desc, tier, seed = args
     smt.STATS = smt.Stats()
     mod = importlib.import_module(modname)
